@@ -627,6 +627,15 @@ pub fn gen_history_with(seed: u64, focus: &str, thorough: bool, forced: Option<V
                 sh.metric = to;
                 continue;
             }
+            // delete every item of the index one by one (the forest and the marks stay until the next build)
+            if sh.live.len() <= 60 && !sh.live.is_empty() && r.chance(1, 120u64.max(n_ops as u64 * 4)) {
+                let all: Vec<u32> = sh.live.iter().copied().collect();
+                for id in all {
+                    steps.push(Step::Del { ix, id });
+                }
+                sh.live.clear();
+                continue;
+            }
             // a clear wipes the index: keep it rare enough that large rounds stay large
             if r.chance(1, 150u64.max(n_ops as u64 * 8)) {
                 steps.push(Step::Clear { ix });
